@@ -20,7 +20,7 @@ gvars == <<S, wl, out, allok, prevok, tracked, nodisp, S0, chk, depth, cfg, lim,
 GInit == Init /\ ops = <<>> /\ TLCSet(7, <<>>)
 GNext == /\ depth < MaxDepth
          /\ \/ \E o \in Ops : Do(o) /\ ops' = Append(ops, [op |-> o, out |-> out', vol |-> S'.vol])
-            \/ \E c \in Cfgs : SetCfg(c) /\ ops' = Append(ops, [op |-> [op |-> "setconfig", maxv |-> c.wlmax, autosplit |-> c.autosplit],
+            \/ \E c \in Cfgs : SetCfg(c) /\ ops' = Append(ops, [op |-> [op |-> "setconfig", maxv |-> c.wlmax, autosplit |-> c.autosplit, diti |-> c.diti],
                                                                  out |-> "ok", vol |-> S.vol])
             \/ \E lm \in Lims : SetLim(lm) /\ ops' = Append(ops, [op |-> [op |-> "setlimits", lims |-> lm], out |-> "ok", vol |-> S.vol])
 
